@@ -894,7 +894,8 @@ func c06Quoting(w *core.W, j int) {
 // c06Keywords: names and blobs that look like a class, a type or a TTL, in positions where the
 // grammar allows only a name / only RDATA.
 func c06Keywords(w *core.W, j int) {
-	words := []string{"in", "IN", "ch", "a", "A", "mx", "ns", "any", "soa", "txt", "aaaa", "AAAA", "3600", "1h", "2w", "type1", "class1", "none"}
+	words := []string{"in", "IN", "ch", "a", "A", "mx", "ns", "any", "soa", "txt", "aaaa", "AAAA", "3600", "1h", "2w", "type1", "class1", "none",
+		"type", "typex", "tYPE7x", "type65536", "class", "classic", "class70000", "ttl", "origin", "include", "generate"}
 	for _, word := range words {
 		lab := model.Name{[]byte(word)}
 		zone := model.Name{[]byte("example")}
@@ -914,6 +915,16 @@ func c06Keywords(w *core.W, j int) {
 			{"origin-relative", fmt.Sprintf("$ORIGIN example.\n$ORIGIN %s\n@ 300 IN A 192.0.2.1\n", word),
 				&model.Rec{Owner: full, Type: 1, Class: 1, TTL: 300, L: model.Layouts[1], Vals: []any{[]byte{192, 0, 2, 1}}}},
 			{"include-origin-relative", fmt.Sprintf("$ORIGIN example.\n$INCLUDE kw.db %s\n", word),
+				&model.Rec{Owner: full, Type: 1, Class: 1, TTL: 300, L: model.Layouts[1], Vals: []any{[]byte{192, 0, 2, 1}}}},
+			{"origin-relative-trailing-blank", fmt.Sprintf("$ORIGIN example.\n$ORIGIN %s  \n@ 300 IN A 192.0.2.1\n", word),
+				&model.Rec{Owner: full, Type: 1, Class: 1, TTL: 300, L: model.Layouts[1], Vals: []any{[]byte{192, 0, 2, 1}}}},
+			{"origin-absolute-trailing-comment", fmt.Sprintf("$ORIGIN %s.example. ; the zone\n@ 300 IN A 192.0.2.1\n", word),
+				&model.Rec{Owner: full, Type: 1, Class: 1, TTL: 300, L: model.Layouts[1], Vals: []any{[]byte{192, 0, 2, 1}}}},
+			{"include-origin-relative-trailing-blank", fmt.Sprintf("$ORIGIN example.\n$INCLUDE kw.db %s \t\n", word),
+				&model.Rec{Owner: full, Type: 1, Class: 1, TTL: 300, L: model.Layouts[1], Vals: []any{[]byte{192, 0, 2, 1}}}},
+			{"rdata-name-relative-trailing-blank", fmt.Sprintf("$ORIGIN example.\nhost 300 IN NS %s \n", word),
+				&model.Rec{Owner: model.Name{[]byte("host"), []byte("example")}, Type: 2, Class: 1, TTL: 300, L: model.Layouts[2], Vals: []any{full}}},
+			{"owner-absolute-type-prefix-label", fmt.Sprintf("%s.example. 300 IN A 192.0.2.1\n", word),
 				&model.Rec{Owner: full, Type: 1, Class: 1, TTL: 300, L: model.Layouts[1], Vals: []any{[]byte{192, 0, 2, 1}}}},
 			{"txt-bare-string", fmt.Sprintf("host.example. 300 IN TXT %s\n", word),
 				&model.Rec{Owner: model.Name{[]byte("host"), []byte("example")}, Type: 16, Class: 1, TTL: 300, L: model.Layouts[16], Vals: []any{[][]byte{[]byte(word)}}}},
